@@ -6,7 +6,7 @@ From Coq Require Import List NArith Arith Bool Lia.
 Import ListNotations.
 Import V0.
 
-Definition K1 : key := (1, 1, 0, 0)%N.
+Definition K1 : key := (1, 1, [], 0)%N.
 
 (* (a) the first subscriber dials with ITS OWN ctx; it cancels while the protocol init is pending;
    the coalesced waiter 1 (live ctx, healthy upstream) receives 0's context error *)
